@@ -362,6 +362,18 @@ def r3(ctx):
         ctx.violation("framing/json", ctx.where(FMT["json"] + "::header"), "JSON framing must be `[` rows separated by `,` `]`; found %s" % j)
     hh = {m: opt_lit(ctx, FMT["html"] + "::" + m) for m in ("header", "row_started", "row_ended", "footer")}
     cell = [t for t, _ in fmt_templates(ctx.anchor_hir(FMT["html"] + "::format_element"))]
+    if not cell:
+        # the cell is not built by one format!: what format_element yields for a plain text, read by evaluation
+        import interp
+        try:
+            nm_ = FMT["html"] + "::format_element"
+            ps_ = ctx.prog.fns[nm_]["params"]
+            env_ = {pk_: x_ for pk_, x_ in zip([p_.get("id") for p_ in ps_], [interp.LazySelf({}), "name", "CELL", False]) if pk_ is not None}
+            v_ = interp.Interp(prog=ctx.prog, max_steps=20000).run(ctx.anchor_hir(nm_), env_)
+            if isinstance(v_, interp.V) and v_.name == "Option::Some" and isinstance(v_.args[0], str):
+                cell = [v_.args[0]]
+        except interp.Undecided:
+            pass
     doc = (hh["header"] or "") + (hh["row_started"] or "") + (cell[0] if cell else "") + (hh["row_ended"] or "") + (hh["footer"] or "")
     stack = []
     balanced = True
